@@ -14,8 +14,10 @@ Contents
 * `coincidence_gen`, `coincidence`, `div0_coincidence`             — the value (and the division-by-zero proviso)
                                                                       depends only on the free symbols
 * `eval_perm_and`, `eval_perm_or`                                  — AC canonicalisation used by the harness
-* `Term.inFrag`, `eval_hasSort_partial`                            — sort preservation (see the section header for
-                                                                      what is left out)
+* `Term.inFrag`, `nodeFrag`, `eval_hasSort_partial`, `eval_bool_partial`
+                                                                   — sort preservation; left out: `arrayStore`,
+                                                                      `arrayValue`, `pow`, `algebraicConst`
+* `typeOfNode_*`                                                   — closed forms / inversions of the type rules
 -/
 namespace PySMT
 
@@ -330,17 +332,15 @@ private theorem agree_child {I J : Interp} {op args p} (h : I.Agree J (Term.node
     (fun s hs => mem_fnames_child op args p a ha s hs h1)
 
 private theorem quant_case (all : Bool) (I J : Interp) (vs : List Sym) (b : Term) (l fns : List Sym)
+    (k : Interp → Bool)
     (hl : l = b.fv.filter (fun x => !vs.contains x)) (hf : ∀ s ∈ b.fnames, s ∈ fns)
     (h : I.Agree J l fns)
-    (ih : ∀ I J : Interp, I.Agree J b.fv b.fnames → eval I b = eval J b) :
-    I.quant all vs (fun K => (eval K b).isTrue) = J.quant all vs (fun K => (eval K b).isTrue) := by
-  have := Interp.quant_congr all I J h.dom (fun s => s ∈ b.fv)
-    (fun K => (eval K b).isTrue) (fun K => (eval K b).isTrue)
+    (ih : ∀ I J : Interp, I.Agree J b.fv b.fnames → k I = k J) :
+    I.quant all vs k = J.quant all vs k := by
+  have := Interp.quant_congr all I J h.dom (fun s => s ∈ b.fv) k k
     (by
       intro σ' τ' hag
-      have : eval (I.withSym σ') b = eval (J.withSym τ') b :=
-        ih _ _ ⟨hag, fun s hs => h.fn s (hf s hs), h.dom, h.div0r, h.div0i⟩
-      simp only [this])
+      exact ih _ _ ⟨hag, fun s hs => h.fn s (hf s hs), h.dom, h.div0r, h.div0i⟩)
     vs I.sym J.sym
     (by
       intro s hs hnot
@@ -383,9 +383,11 @@ theorem coincidence_gen : (t : Term) → ∀ (I J : Interp), I.Agree J t.fv t.fn
           I.quant all vs (fun K => (eval K b).isTrue) = J.quant all vs (fun K => (eval K b).isTrue) := by
         intro all vs b hargs hp hfv
         subst hargs
-        refine quant_case all I J vs b _ _ hfv ?_ h (ih b (by simp))
-        intro s hs
-        exact mem_fnames_child op [b] p b (by simp) s hs hsym
+        refine quant_case all I J vs b _ _ _ hfv ?_ h ?_
+        · intro s hs
+          exact mem_fnames_child op [b] p b (by simp) s hs hsym
+        · intro I' J' h'
+          simp only [ih b (by simp) I' J' h']
       cases op <;> simp [Op.isQuantifier] at hq
       · rw [eval_node, eval_node, evalNode_forall, evalNode_forall]
         split
@@ -433,5 +435,813 @@ theorem coincidence (t : Term) (I J : Interp) (hok : t.symOk = true)
     eval I t = eval J t :=
   coincidence_gen t I J
     ⟨fun s hs => (h s hs).1, fun s hs => (h s (fnames_subset_fv t hok s hs)).2, hdom, hr, hi⟩
+
+/-! ## the division-by-zero proviso depends only on the free symbols -/
+
+theorem div0_node (I : Interp) (op : Op) (args : List Term) (p : Payload) :
+    div0 I (.node op args p) = div0Node op p (args.map (fun a => (fun J => eval J a, fun J => div0 J a))) I := by
+  simp only [div0, Term.div0F]
+  rfl
+
+theorem wt_node (op : Op) (args : List Term) (p : Payload) : (Term.node op args p).wt =
+    ((args.map Term.wt).all id && (typeOfNode op p (args.map Term.typeOf)).isSome) := by
+  rw [Term.wt.eq_def]
+
+theorem typeOf_node (op : Op) (args : List Term) (p : Payload) :
+    (Term.node op args p).typeOf = typeOfNode op p (args.map Term.typeOf) := by
+  rw [Term.typeOf.eq_def]
+
+theorem Term.wt_child {op args p} (h : (Term.node op args p).wt = true) : ∀ a ∈ args, a.wt = true := by
+  intro a ha
+  rw [wt_node] at h
+  simp only [Bool.and_eq_true, List.all_eq_true, List.mem_map] at h
+  exact h.1 _ ⟨a, ha, rfl⟩
+
+theorem Term.wt_typeOf {op args p} (h : (Term.node op args p).wt = true) :
+    (typeOfNode op p (args.map Term.typeOf)).isSome = true := by
+  rw [wt_node] at h
+  simp only [Bool.and_eq_true] at h
+  exact h.2
+
+theorem typeOfNode_forall_eq (p ts) : typeOfNode .forall_ p ts =
+    match ts with | [some .bool] => some .bool | _ => none := by
+  cases ts with
+  | nil => rfl
+  | cons t rest => cases t with
+    | none => rfl
+    | some τ => cases τ <;> cases rest <;> rfl
+
+theorem typeOfNode_exists_eq (p ts) : typeOfNode .exists_ p ts =
+    match ts with | [some .bool] => some .bool | _ => none := by
+  cases ts with
+  | nil => rfl
+  | cons t rest => cases t with
+    | none => rfl
+    | some τ => cases τ <;> cases rest <;> rfl
+
+theorem typeOfNode_symbol_eq (p ts) : typeOfNode .symbol p ts =
+    match p, ts with
+    | .sym s, [] => (if s.params.isEmpty then some s.ret else none)
+    | _, _ => none := by
+  cases p <;> cases ts <;> rfl
+
+theorem typeOfNode_function_eq (p ts) : typeOfNode .function p ts =
+    match p with
+    | .sym f => (if ts.length = f.params.length ∧ ts = f.params.map some then some f.ret else none)
+    | _ => none := by
+  cases p <;> rfl
+
+theorem typeOfNode_forall {p ts} (h : (typeOfNode .forall_ p ts).isSome = true) : ts = [some .bool] := by
+  rw [typeOfNode_forall_eq] at h
+  split at h
+  · rfl
+  · simp at h
+
+theorem typeOfNode_exists {p ts} (h : (typeOfNode .exists_ p ts).isSome = true) : ts = [some .bool] := by
+  rw [typeOfNode_exists_eq] at h
+  split at h
+  · rfl
+  · simp at h
+
+theorem typeOfNode_symbol {p ts} (h : (typeOfNode .symbol p ts).isSome = true) :
+    ts = [] ∧ ∃ s, p = .sym s ∧ s.params = [] := by
+  rw [typeOfNode_symbol_eq] at h
+  split at h
+  · next s =>
+    refine ⟨rfl, s, rfl, ?_⟩
+    split at h
+    · next hp => simpa using hp
+    · simp at h
+  · simp at h
+
+/-- a well-typed quantifier node has exactly one (Boolean) argument -/
+theorem Term.wt_quant_args {op args p} (h : (Term.node op args p).wt = true) (hq : op.isQuantifier = true) :
+    ∃ b, args = [b] := by
+  have h2 := Term.wt_typeOf h
+  have : args.map Term.typeOf = [some .bool] := by
+    cases op <;> simp [Op.isQuantifier] at hq
+    · exact typeOfNode_forall h2
+    · exact typeOfNode_exists h2
+  cases args with
+  | nil => simp at this
+  | cons b rest =>
+    cases rest with
+    | nil => exact ⟨b, rfl⟩
+    | cons _ _ => simp at this
+
+/-- a well-typed symbol node is a leaf -/
+theorem Term.wt_symbol_args {args p} (h : (Term.node .symbol args p).wt = true) : args = [] := by
+  have := (typeOfNode_symbol (Term.wt_typeOf h)).1
+  simpa using this
+
+theorem div0_coincidence_gen : (t : Term) → t.wt = true → ∀ (I J : Interp), I.Agree J t.fv t.fnames →
+    div0 I t = div0 J t
+  | .node op args p => fun hwt I J h => by
+    have ih : ∀ a ∈ args, ∀ I J : Interp, I.Agree J a.fv a.fnames → div0 I a = div0 J a :=
+      fun a ha I J h => div0_coincidence_gen a (Term.wt_child hwt a ha) I J h
+    rw [div0_node, div0_node]
+    by_cases hsym : op = .symbol
+    · subst hsym
+      have := Term.wt_symbol_args hwt
+      subst this
+      rfl
+    by_cases hq : op.isQuantifier = true
+    · obtain ⟨b, rfl⟩ := Term.wt_quant_args hwt hq
+      have hcase : ∀ (all : Bool) (vs : List Sym), p = .qvars vs →
+          (Term.node op [b] p).fv = b.fv.filter (fun x => !vs.contains x) →
+          I.quant all vs (fun K => div0 K b) = J.quant all vs (fun K => div0 K b) := by
+        intro all vs hp hfv
+        refine quant_case all I J vs b _ _ _ hfv ?_ h (ih b (by simp))
+        intro s hs
+        exact mem_fnames_child op [b] p b (by simp) s hs hsym
+      have hplain : (∀ vs, p ≠ .qvars vs) → div0 I b = div0 J b := by
+        intro hp
+        apply ih b (by simp) I J
+        exact h.mono (fun s hs => mem_fv_child op [b] p b (by simp) s hs hsym (fun vs hpv _ => absurd hpv (hp vs)))
+          (fun s hs => mem_fnames_child op [b] p b (by simp) s hs hsym)
+      cases op <;> simp [Op.isQuantifier] at hq
+      · cases p
+        case qvars vs =>
+          have := hcase false vs rfl (by rw [fv_forall]; simp)
+          simpa [div0Node] using this
+        all_goals (have := hplain (by intro vs; simp); simpa [div0Node] using this)
+      · cases p
+        case qvars vs =>
+          have := hcase false vs rfl (by rw [fv_exists]; simp)
+          simpa [div0Node] using this
+        all_goals (have := hplain (by intro vs; simp); simpa [div0Node] using this)
+    · have hq' : op.isQuantifier = false := by simpa using hq
+      have hch : ∀ a ∈ args, I.Agree J a.fv a.fnames := fun a ha => agree_child h hsym hq' a ha
+      have hd : ∀ a ∈ args, div0 I a = div0 J a := fun a ha => ih a ha I J (hch a ha)
+      have he : ∀ a ∈ args, eval I a = eval J a := fun a ha => coincidence_gen a I J (hch a ha)
+      have hany : (args.map (fun a => ((fun J => eval J a : Interp → Val), (fun J => div0 J a : Interp → Bool)))).any
+            (fun f => f.2 I) =
+          (args.map (fun a => ((fun J => eval J a : Interp → Val), (fun J => div0 J a : Interp → Bool)))).any
+            (fun f => f.2 J) := by
+        rw [Bool.eq_iff_iff]
+        simp only [List.any_map, List.any_eq_true, Function.comp]
+        constructor
+        · rintro ⟨a, ha, H⟩; exact ⟨a, ha, by rw [← hd a ha]; exact H⟩
+        · rintro ⟨a, ha, H⟩; exact ⟨a, ha, by rw [hd a ha]; exact H⟩
+      unfold div0Node
+      split
+      · simp [Op.isQuantifier] at hq'
+      · simp [Op.isQuantifier] at hq'
+      · next a b hfs =>
+        match args, hfs, hd, he with
+        | [a', b'], hfs, hd, he =>
+          simp only [List.map_cons, List.map_nil, List.cons.injEq, and_true] at hfs
+          obtain ⟨rfl, rfl⟩ := hfs
+          simp only [hd a' (by simp), hd b' (by simp), he b' (by simp)]
+      · exact hany
+
+/-- The proviso "a division by zero is evaluated" depends only on the free symbols (C01/C02 use it
+to know that skipping such interpretations is a condition on the free symbols' values only). -/
+theorem div0_coincidence (t : Term) (I J : Interp) (hwt : t.wt = true) (hok : t.symOk = true)
+    (h : ∀ s ∈ t.fv, I.sym s = J.sym s ∧ I.fn s = J.fn s)
+    (hdom : I.dom = J.dom) (hr : I.div0r = J.div0r) (hi : I.div0i = J.div0i) :
+    div0 I t = div0 J t :=
+  div0_coincidence_gen t hwt I J
+    ⟨fun s hs => (h s hs).1, fun s hs => (h s (fnames_subset_fv t hok s hs)).2, hdom, hr, hi⟩
+
+/-! ## n-ary conjunction / disjunction do not depend on the order of the arguments -/
+
+theorem eval_and (I : Interp) (args : List Term) (p : Payload) :
+    eval I (.node .and args p) = .b (args.all (fun a => (eval I a).isTrue)) := by
+  rw [eval_plain I .and args p (by simp) (by simp) rfl]
+  simp only [evalOp, List.all_map]
+  rfl
+
+theorem eval_or (I : Interp) (args : List Term) (p : Payload) :
+    eval I (.node .or args p) = .b (args.any (fun a => (eval I a).isTrue)) := by
+  rw [eval_plain I .or args p (by simp) (by simp) rfl]
+  simp only [evalOp, List.any_map]
+  rfl
+
+theorem eval_perm_and (I : Interp) (l₁ l₂ : List Term) (p : Payload) (h : l₁.Perm l₂) :
+    eval I (.node .and l₁ p) = eval I (.node .and l₂ p) := by
+  rw [eval_and, eval_and, h.all_eq]
+
+theorem eval_perm_or (I : Interp) (l₁ l₂ : List Term) (p : Payload) (h : l₁.Perm l₂) :
+    eval I (.node .or l₁ p) = eval I (.node .or l₂ p) := by
+  rw [eval_or, eval_or, h.any_eq]
+
+/-- duplicates among the arguments of a conjunction / disjunction do not matter either -/
+theorem eval_and_of_same_set (I : Interp) (l₁ l₂ : List Term) (p : Payload) (h : ∀ a, a ∈ l₁ ↔ a ∈ l₂) :
+    eval I (.node .and l₁ p) = eval I (.node .and l₂ p) := by
+  rw [eval_and, eval_and]
+  congr 1
+  rw [Bool.eq_iff_iff]
+  simp only [List.all_eq_true]
+  exact ⟨fun H a ha => H a ((h a).mpr ha), fun H a ha => H a ((h a).mp ha)⟩
+
+theorem eval_or_of_same_set (I : Interp) (l₁ l₂ : List Term) (p : Payload) (h : ∀ a, a ∈ l₁ ↔ a ∈ l₂) :
+    eval I (.node .or l₁ p) = eval I (.node .or l₂ p) := by
+  rw [eval_or, eval_or]
+  congr 1
+  rw [Bool.eq_iff_iff]
+  simp only [List.any_eq_true]
+  exact ⟨fun ⟨a, ha, H⟩ => ⟨a, (h a).mp ha, H⟩, fun ⟨a, ha, H⟩ => ⟨a, (h a).mpr ha, H⟩⟩
+
+
+/-! ## sort preservation -/
+
+theorem hasSort_bool {v : Val} (h : v.hasSort .bool = true) : ∃ b, v = .b b := by
+  cases v <;> simp [Val.hasSort] at h; exact ⟨_, rfl⟩
+theorem hasSort_int {v : Val} (h : v.hasSort .int = true) : ∃ n, v = .i n := by
+  cases v <;> simp [Val.hasSort] at h; exact ⟨_, rfl⟩
+theorem hasSort_real {v : Val} (h : v.hasSort .real = true) : ∃ q, v = .r q := by
+  cases v <;> simp [Val.hasSort] at h; exact ⟨_, rfl⟩
+theorem hasSort_str {v : Val} (h : v.hasSort .str = true) : ∃ s, v = .s s := by
+  cases v <;> simp [Val.hasSort] at h; exact ⟨_, rfl⟩
+theorem hasSort_bv {v : Val} {w : Nat} (h : v.hasSort (.bv w) = true) : ∃ n, v = .bv w n ∧ n < 2 ^ w := by
+  cases v <;> simp [Val.hasSort] at h
+  next w' n => obtain ⟨rfl, hn⟩ := h; exact ⟨n, rfl, hn⟩
+
+theorem of_ite_some {α} {c : Prop} [Decidable c] {a b : α} (h : (if c then some a else none) = some b) :
+    c ∧ a = b := by
+  split at h
+  · next hc => exact ⟨hc, by simpa using h⟩
+  · simp at h
+
+/-- relation between a child's value and its (optional) type used in the step lemmas -/
+def SortedAs (v : Val) (t : Option Ty) : Prop := ∀ τ, t = some τ → v.hasSort τ = true
+
+/-- pointwise `SortedAs` on two lists of the same length -/
+inductive SortedAll : List Val → List (Option Ty) → Prop
+  | nil : SortedAll [] []
+  | cons {v t vs ts} : SortedAs v t → SortedAll vs ts → SortedAll (v :: vs) (t :: ts)
+
+theorem sortedAll_map {α} (f : α → Val) (g : α → Option Ty) :
+    ∀ (l : List α), (∀ a ∈ l, SortedAs (f a) (g a)) → SortedAll (l.map f) (l.map g)
+  | [], _ => .nil
+  | a :: l, h => .cons (h a (by simp)) (sortedAll_map f g l (fun b hb => h b (by simp [hb])))
+
+theorem allAre_sorted {T : Ty} : ∀ {vs : List Val} {ts : List (Option Ty)}, SortedAll vs ts →
+    allAre ts T = true → ∀ v ∈ vs, v.hasSort T = true
+  | _, _, .nil, _, v, hv => by simp at hv
+  | _, _, .cons h1 h2, hall, v, hv => by
+    simp only [allAre, List.all_cons, Bool.and_eq_true, beq_iff_eq] at hall
+    rcases List.mem_cons.mp hv with rfl | hv
+    · exact h1 T hall.1
+    · exact allAre_sorted h2 (by simpa [allAre] using hall.2) v hv
+
+/-- operators whose value is a Boolean whatever the arguments are -/
+def Op.boolRes : Op → Bool
+  | .and | .or | .not | .implies | .iff | .le | .lt | .equals | .bvUlt | .bvUle | .bvSlt | .bvSle
+  | .strContains | .strPrefixOf | .strSuffixOf => true
+  | _ => false
+
+theorem evalOp_boolRes (I : Interp) (op : Op) (p : Payload) (vs : List Val) (h : op.boolRes = true) :
+    ∃ b, evalOp I op p vs = .b b := by
+  cases op <;> simp [Op.boolRes] at h <;>
+    first
+    | exact ⟨_, rfl⟩
+    | (rcases vs with _ | ⟨a, _ | ⟨b, _ | ⟨c, r⟩⟩⟩ <;> exact ⟨_, rfl⟩)
+
+theorem typeOfNode_boolRes (op : Op) (p : Payload) (ts : List (Option Ty)) (τ : Ty) (h : op.boolRes = true)
+    (ht : typeOfNode op p ts = some τ) : τ = .bool := by
+  cases op <;> simp [Op.boolRes] at h
+  case and | or | not | implies | iff | strContains | strPrefixOf | strSuffixOf =>
+    exact (of_ite_some ht).2.symm
+  all_goals
+    rcases ts with _ | ⟨_ | ⟨t⟩, rest⟩
+    · first | exact (Option.some.inj ht).symm | cases ht
+    · first | exact (of_ite_some ht).2.symm | cases ht
+    · cases t <;> first | exact (of_ite_some ht).2.symm | cases ht
+
+/-! ### values -/
+
+theorem add_int {a b : Val} (ha : a.hasSort .int = true) (hb : b.hasSort .int = true) : (Sem.add a b).hasSort .int = true := by
+  obtain ⟨x, rfl⟩ := hasSort_int ha; obtain ⟨y, rfl⟩ := hasSort_int hb; rfl
+theorem add_real {a b : Val} (ha : a.hasSort .real = true) (hb : b.hasSort .real = true) : (Sem.add a b).hasSort .real = true := by
+  obtain ⟨x, rfl⟩ := hasSort_real ha; obtain ⟨y, rfl⟩ := hasSort_real hb; rfl
+theorem mul_int {a b : Val} (ha : a.hasSort .int = true) (hb : b.hasSort .int = true) : (Sem.mul a b).hasSort .int = true := by
+  obtain ⟨x, rfl⟩ := hasSort_int ha; obtain ⟨y, rfl⟩ := hasSort_int hb; rfl
+theorem mul_real {a b : Val} (ha : a.hasSort .real = true) (hb : b.hasSort .real = true) : (Sem.mul a b).hasSort .real = true := by
+  obtain ⟨x, rfl⟩ := hasSort_real ha; obtain ⟨y, rfl⟩ := hasSort_real hb; rfl
+theorem sub_int {a b : Val} (ha : a.hasSort .int = true) (hb : b.hasSort .int = true) : (Sem.sub a b).hasSort .int = true := by
+  obtain ⟨x, rfl⟩ := hasSort_int ha; obtain ⟨y, rfl⟩ := hasSort_int hb; rfl
+theorem sub_real {a b : Val} (ha : a.hasSort .real = true) (hb : b.hasSort .real = true) : (Sem.sub a b).hasSort .real = true := by
+  obtain ⟨x, rfl⟩ := hasSort_real ha; obtain ⟨y, rfl⟩ := hasSort_real hb; rfl
+theorem div_int (I : Interp) {a b : Val} (ha : a.hasSort .int = true) (hb : b.hasSort .int = true) : (Sem.div I a b).hasSort .int = true := by
+  obtain ⟨x, rfl⟩ := hasSort_int ha; obtain ⟨y, rfl⟩ := hasSort_int hb
+  simp only [Sem.div]; split <;> rfl
+theorem div_real (I : Interp) {a b : Val} (ha : a.hasSort .real = true) (hb : b.hasSort .real = true) : (Sem.div I a b).hasSort .real = true := by
+  obtain ⟨x, rfl⟩ := hasSort_real ha; obtain ⟨y, rfl⟩ := hasSort_real hb
+  simp only [Sem.div]; split <;> rfl
+
+theorem foldl_hasSort (f : Val → Val → Val) (T : Ty)
+    (hf : ∀ a b, a.hasSort T = true → b.hasSort T = true → (f a b).hasSort T = true) :
+    ∀ (vs : List Val) (v : Val), v.hasSort T = true → (∀ x ∈ vs, x.hasSort T = true) → (vs.foldl f v).hasSort T = true
+  | [], v, hv, _ => hv
+  | x :: vs, v, hv, h => by
+    simp only [List.foldl_cons]
+    exact foldl_hasSort f T hf vs (f v x) (hf v x hv (h x (by simp))) (fun y hy => h y (by simp [hy]))
+
+theorem hasSort_bv_of (w : Nat) (x : BitVec w) : (Val.bv w x.toNat).hasSort (.bv w) = true := by
+  simp [Val.hasSort, x.isLt]
+
+theorem bv1_hasSort (f : (w : Nat) → BitVec w → BitVec w) {a : Val} {w : Nat} (ha : a.hasSort (.bv w) = true) :
+    (Sem.bv1 f a).hasSort (.bv w) = true := by
+  obtain ⟨x, rfl, _⟩ := hasSort_bv ha
+  simp [Sem.bv1, Val.hasSort, BitVec.isLt]
+
+theorem bv2_hasSort (f : (w : Nat) → BitVec w → BitVec w → BitVec w) {a b : Val} {w : Nat}
+    (ha : a.hasSort (.bv w) = true) (hb : b.hasSort (.bv w) = true) :
+    (Sem.bv2 f a b).hasSort (.bv w) = true := by
+  obtain ⟨x, rfl, _⟩ := hasSort_bv ha
+  obtain ⟨y, rfl, _⟩ := hasSort_bv hb
+  simp [Sem.bv2, Val.hasSort, BitVec.isLt]
+
+theorem select_hasSort (i e : Ty) (j : Val) : ∀ (a : Val), a.hasSort (.array i e) = true → (a.select j).hasSort e = true
+  | .astore a k v, h => by
+    simp only [Val.hasSort, Bool.and_eq_true] at h
+    simp only [Val.select]
+    split
+    · exact h.2
+    · exact select_hasSort i e j a h.1.1
+  | .aconst ix d, h => by
+    simp only [Val.hasSort, Bool.and_eq_true] at h
+    exact h.2
+  | .b _, h | .i _, h | .r _, h | .s _, h | .bv _ _, h | .u _ _, h => by simp [Val.hasSort] at h
+
+/-! ### closed forms / inversions of `typeOfNode`, operator class by operator class -/
+
+/-- close a goal whose typing hypothesis computes to `none = some _` -/
+local macro "tinv " h:ident : tactic => `(tactic| try (cases $h:ident; done))
+
+def Op.isArith : Op → Bool | .plus | .minus | .times | .div => true | _ => false
+
+theorem typeOfNode_arith (op : Op) (h : op.isArith = true) (p ts) : typeOfNode op p ts =
+    if allAre ts .real then some .real else if allAre ts .int then some .int else none := by
+  cases op <;> simp [Op.isArith] at h <;> rfl
+
+def Op.isBvSame : Op → Bool
+  | .bvAdd | .bvSub | .bvNot | .bvAnd | .bvOr | .bvXor | .bvNeg | .bvMul | .bvUdiv | .bvUrem | .bvLshl | .bvLshr
+  | .bvSdiv | .bvSrem | .bvAshr => true
+  | _ => false
+
+theorem typeOfNode_bvSame (op : Op) (h : op.isBvSame = true) (p ts) : typeOfNode op p ts =
+    match p with
+    | .ints (w :: _) => if allAre ts (.bv w) then some (.bv w) else none
+    | _ => none := by
+  cases op <;> simp [Op.isBvSame] at h <;>
+    (cases p <;> first | rfl | (rename_i l; cases l <;> rfl))
+
+theorem typeOfNode_toReal (p ts) : typeOfNode .toReal p ts = if allAre ts .int then some .real else none := rfl
+
+theorem typeOfNode_ite {p ts τ} (h : typeOfNode .ite p ts = some τ) : ts = [some .bool, some τ, some τ] := by
+  rcases ts with _ | ⟨_ | ⟨t1⟩, r1⟩ <;> tinv h
+  cases t1 <;> tinv h
+  rcases r1 with _ | ⟨_ | ⟨t2⟩, r2⟩ <;> tinv h
+  rcases r2 with _ | ⟨_ | ⟨t3⟩, r3⟩ <;> tinv h
+  rcases r3 with _ | ⟨t4, r4⟩ <;> tinv h
+  obtain ⟨rfl, rfl⟩ := of_ite_some h
+  rfl
+
+theorem typeOfNode_bvComp {p ts τ} (h : typeOfNode .bvComp p ts = some τ) :
+    ∃ w, ts = [some (.bv w), some (.bv w)] ∧ τ = .bv 1 := by
+  rcases ts with _ | ⟨_ | ⟨t1⟩, r1⟩ <;> tinv h
+  cases t1 <;> tinv h
+  rcases r1 with _ | ⟨_ | ⟨t2⟩, r2⟩ <;> tinv h
+  cases t2 <;> tinv h
+  rcases r2 with _ | ⟨t3, r3⟩ <;> tinv h
+  obtain ⟨rfl, rfl⟩ := of_ite_some h
+  exact ⟨_, rfl, rfl⟩
+
+theorem typeOfNode_bvToNatural {p ts τ} (h : typeOfNode .bvToNatural p ts = some τ) :
+    τ = .int ∧ ∃ w r, ts = some (.bv w) :: r := by
+  rcases ts with _ | ⟨_ | ⟨t1⟩, r1⟩ <;> tinv h
+  cases t1 <;> tinv h
+  exact ⟨(Option.some.inj h).symm, _, _, rfl⟩
+
+theorem typeOfNode_bvConcat {p ts τ} (h : typeOfNode .bvConcat p ts = some τ) :
+    ∃ l r, ts = [some (.bv l), some (.bv r)] ∧ τ = .bv (l + r) := by
+  cases p <;> tinv h
+  rename_i ws
+  cases ws <;> tinv h
+  rcases ts with _ | ⟨_ | ⟨t1⟩, r1⟩ <;> tinv h
+  cases t1 <;> tinv h
+  rcases r1 with _ | ⟨_ | ⟨t2⟩, r2⟩ <;> tinv h
+  cases t2 <;> tinv h
+  rcases r2 with _ | ⟨t3, r3⟩ <;> tinv h
+  obtain ⟨hw, rfl⟩ := of_ite_some h
+  exact ⟨_, _, rfl, by rw [hw]⟩
+
+theorem typeOfNode_bvExtract {p ts τ} (h : typeOfNode .bvExtract p ts = some τ) :
+    ∃ w lo hi base, p = .ints [w, lo, hi] ∧ ts = [some (.bv base)] ∧ τ = .bv w ∧ w + lo = hi + 1 := by
+  cases p <;> tinv h
+  rename_i ws
+  rcases ws with _ | ⟨w, _ | ⟨lo, _ | ⟨hi, _ | ⟨x, r⟩⟩⟩⟩ <;> tinv h
+  rcases ts with _ | ⟨_ | ⟨t1⟩, r1⟩ <;> tinv h
+  cases t1 <;> tinv h
+  rcases r1 with _ | ⟨t2, r2⟩ <;> tinv h
+  rename_i base
+  have h' : (if lo ≥ base ∨ hi ≥ base then none else if base < w then none
+      else if w + lo ≠ hi + 1 then none else some (Ty.bv w)) = some τ := h
+  split at h'
+  · cases h'
+  · split at h'
+    · cases h'
+    · split at h'
+      · cases h'
+      · next hne =>
+        refine ⟨w, lo, hi, base, rfl, rfl, (Option.some.inj h').symm, ?_⟩
+        omega
+
+theorem typeOfNode_bvRot (op : Op) (hop : op = .bvRol ∨ op = .bvRor) {p ts τ} (h : typeOfNode op p ts = some τ) :
+    ∃ w k, p = .ints [w, k] ∧ ts = [some (.bv w)] ∧ τ = .bv w := by
+  rcases hop with rfl | rfl
+  all_goals
+    cases p <;> tinv h
+    rename_i ws
+    rcases ws with _ | ⟨w, _ | ⟨k, _ | ⟨x, r⟩⟩⟩ <;> tinv h
+    rcases ts with _ | ⟨_ | ⟨t1⟩, r1⟩ <;> tinv h
+    cases t1 <;> tinv h
+    rcases r1 with _ | ⟨t2, r2⟩ <;> tinv h
+    rename_i a
+    have h' : (if w < k then none else if w ≠ a then none else some (Ty.bv w)) = some τ := h
+    split at h'
+    · cases h'
+    · split at h'
+      · cases h'
+      · next hne =>
+        have : w = a := by simpa using hne
+        subst this
+        exact ⟨w, k, rfl, rfl, (Option.some.inj h').symm⟩
+
+theorem typeOfNode_bvExt (op : Op) (hop : op = .bvZext ∨ op = .bvSext) {p ts τ} (h : typeOfNode op p ts = some τ) :
+    ∃ w ws a r, p = .ints (w :: ws) ∧ ts = some (.bv a) :: r ∧ τ = .bv w := by
+  rcases hop with rfl | rfl
+  all_goals
+    cases p <;> tinv h
+    rename_i ws
+    rcases ws with _ | ⟨w, ws⟩ <;> tinv h
+    rcases ts with _ | ⟨_ | ⟨t1⟩, r1⟩ <;> tinv h
+    cases t1 <;> tinv h
+    rename_i a
+    have h' : (if w < a then none else some (Ty.bv w)) = some τ := h
+    split at h'
+    · cases h'
+    · exact ⟨w, ws, a, r1, rfl, rfl, (Option.some.inj h').symm⟩
+
+theorem typeOfNode_arraySelect {p ts τ} (h : typeOfNode .arraySelect p ts = some τ) :
+    ∃ i, ts = [some (.array i τ), some i] := by
+  rcases ts with _ | ⟨_ | ⟨t1⟩, r1⟩ <;> tinv h
+  cases t1 <;> tinv h
+  rcases r1 with _ | ⟨_ | ⟨t2⟩, r2⟩ <;> tinv h
+  rcases r2 with _ | ⟨t3, r3⟩ <;> tinv h
+  obtain ⟨rfl, rfl⟩ := of_ite_some h
+  exact ⟨_, rfl⟩
+
+/-- string-valued operators -/
+def Op.strRes : Op → Bool
+  | .strConcat | .strReplace | .strSubstr | .intToStr | .strCharAt => true | _ => false
+/-- integer-valued string operators -/
+def Op.strIntRes : Op → Bool
+  | .strLength | .strIndexOf | .strToInt => true | _ => false
+
+theorem typeOfNode_strRes (op : Op) (hop : op.strRes = true) {p ts τ} (h : typeOfNode op p ts = some τ) :
+    τ = .str := by
+  cases op <;> simp [Op.strRes] at hop
+  case strConcat | strReplace | intToStr => exact (of_ite_some h).2.symm
+  case strSubstr =>
+    rcases ts with _ | ⟨_ | ⟨t1⟩, r1⟩ <;> tinv h
+    cases t1 <;> tinv h
+    rcases r1 with _ | ⟨_ | ⟨t2⟩, r2⟩ <;> tinv h
+    cases t2 <;> tinv h
+    rcases r2 with _ | ⟨_ | ⟨t3⟩, r3⟩ <;> tinv h
+    cases t3 <;> tinv h
+    rcases r3 with _ | ⟨t4, r4⟩ <;> tinv h
+    exact (Option.some.inj h).symm
+  case strCharAt =>
+    rcases ts with _ | ⟨_ | ⟨t1⟩, r1⟩ <;> tinv h
+    cases t1 <;> tinv h
+    rcases r1 with _ | ⟨_ | ⟨t2⟩, r2⟩ <;> tinv h
+    cases t2 <;> tinv h
+    rcases r2 with _ | ⟨t3, r3⟩ <;> tinv h
+    exact (Option.some.inj h).symm
+
+theorem typeOfNode_strIntRes (op : Op) (hop : op.strIntRes = true) {p ts τ} (h : typeOfNode op p ts = some τ) :
+    τ = .int := by
+  cases op <;> simp [Op.strIntRes] at hop
+  case strLength | strToInt => exact (of_ite_some h).2.symm
+  case strIndexOf =>
+    rcases ts with _ | ⟨_ | ⟨t1⟩, r1⟩ <;> tinv h
+    cases t1 <;> tinv h
+    rcases r1 with _ | ⟨_ | ⟨t2⟩, r2⟩ <;> tinv h
+    cases t2 <;> tinv h
+    rcases r2 with _ | ⟨_ | ⟨t3⟩, r3⟩ <;> tinv h
+    cases t3 <;> tinv h
+    rcases r3 with _ | ⟨t4, r4⟩ <;> tinv h
+    exact (Option.some.inj h).symm
+
+/-! ### the fragment and the step lemma -/
+
+def Op.isBvBin : Op → Bool
+  | .bvAdd | .bvSub | .bvAnd | .bvOr | .bvXor | .bvMul | .bvUdiv | .bvUrem | .bvLshl | .bvLshr
+  | .bvSdiv | .bvSrem | .bvAshr => true
+  | _ => false
+
+/-- Shape conditions on a node with `n` arguments: the arity and payload shape that the
+`FormulaManager` constructors guarantee (the type checker does not check them), for the operators
+covered by `eval_hasSort_partial`. Not covered (`false`): `arrayStore`, `arrayValue` (canonical array
+values), `pow`, `algebraicConst` (no semantics in `Core/Eval`). `bvExtract` needs `lo ≤ hi`: the type
+rule accepts the zero-width extract `lo = hi + 1`, which `BVExtract` rejects. -/
+def nodeFrag (op : Op) (p : Payload) (n : Nat) : Bool :=
+  match op with
+  | .and | .or | .not | .implies | .iff | .le | .lt | .equals | .bvUlt | .bvUle | .bvSlt | .bvSle
+  | .strContains | .strPrefixOf | .strSuffixOf | .forall_ | .exists_ | .symbol | .function => true
+  | .boolConst => match p with | .b _ => true | _ => false
+  | .intConst => match p with | .i _ => true | _ => false
+  | .realConst => match p with | .q _ => true | _ => false
+  | .strConst => match p with | .s _ => true | _ => false
+  | .bvConst => match p with | .bv v w => decide (v < 2 ^ w) | _ => false
+  | .plus | .times => decide (1 ≤ n)
+  | .minus | .div => n == 2
+  | .bvExtract => match p with | .ints [_, lo, hi] => decide (lo ≤ hi) | _ => false
+  | .ite | .bvConcat | .bvRol | .bvRor | .bvComp | .arraySelect | .strConcat => true
+  | .toReal | .bvNot | .bvNeg | .bvToNatural | .strLength | .strToInt | .intToStr => n == 1
+  | .bvAdd | .bvSub | .bvAnd | .bvOr | .bvXor | .bvMul | .bvUdiv | .bvUrem | .bvLshl | .bvLshr
+  | .bvSdiv | .bvSrem | .bvAshr | .strCharAt => n == 2
+  | .bvZext | .bvSext => n == 1 && (match p with | .ints [_, _] => true | _ => false)
+  | .strReplace | .strIndexOf | .strSubstr => n == 3
+  | .arrayStore | .arrayValue | .pow | .algebraicConst => false
+
+/-- every node satisfies `nodeFrag` -/
+def Term.inFrag : Term → Bool
+  | .node op args p => (args.map Term.inFrag).all id && nodeFrag op p args.length
+
+theorem inFrag_node (op : Op) (args : List Term) (p : Payload) : (Term.node op args p).inFrag =
+    ((args.map Term.inFrag).all id && nodeFrag op p args.length) := by
+  rw [Term.inFrag.eq_def]
+
+theorem evalOp_strRes (I : Interp) (op : Op) (p : Payload) (vs : List Val) (hop : op.strRes = true)
+    (hfrag : nodeFrag op p vs.length = true) : ∃ s, evalOp I op p vs = .s s := by
+  cases op <;> simp [Op.strRes] at hop
+  case strConcat => exact ⟨_, rfl⟩
+  all_goals
+    rcases vs with _ | ⟨a, _ | ⟨b, _ | ⟨c, _ | ⟨d, r⟩⟩⟩⟩ <;> simp [nodeFrag] at hfrag <;> exact ⟨_, rfl⟩
+
+theorem evalOp_strIntRes (I : Interp) (op : Op) (p : Payload) (vs : List Val) (hop : op.strIntRes = true)
+    (hfrag : nodeFrag op p vs.length = true) : ∃ n, evalOp I op p vs = .i n := by
+  cases op <;> simp [Op.strIntRes] at hop
+  all_goals
+    rcases vs with _ | ⟨a, _ | ⟨b, _ | ⟨c, _ | ⟨d, r⟩⟩⟩⟩ <;> simp [nodeFrag] at hfrag <;> exact ⟨_, rfl⟩
+
+theorem evalOp_bvUn (I : Interp) (op : Op) (p : Payload) (a : Val) (hop : op = .bvNot ∨ op = .bvNeg) :
+    ∃ f, evalOp I op p [a] = Sem.bv1 f a := by
+  rcases hop with rfl | rfl <;> exact ⟨_, rfl⟩
+
+theorem evalOp_bvBin (I : Interp) (op : Op) (p : Payload) (a b : Val) (hop : op.isBvBin = true) :
+    ∃ f, evalOp I op p [a, b] = Sem.bv2 f a b := by
+  cases op <;> simp [Op.isBvBin] at hop
+  case bvLshl => exact ⟨fun _ x y => x <<< y.toNat, rfl⟩
+  case bvLshr => exact ⟨fun _ x y => x >>> y.toNat, rfl⟩
+  case bvAshr => exact ⟨fun _ x y => x.sshiftRight y.toNat, rfl⟩
+  all_goals exact ⟨_, rfl⟩
+
+theorem sortedAll_length : ∀ {vs ts}, SortedAll vs ts → vs.length = ts.length
+  | _, _, .nil => rfl
+  | _, _, .cons _ h => by simp [sortedAll_length h]
+
+theorem sortedAll_cons {vs t ts} (h : SortedAll vs (t :: ts)) : ∃ a r, vs = a :: r ∧ SortedAs a t ∧ SortedAll r ts := by
+  cases h with
+  | cons h1 h2 => exact ⟨_, _, rfl, h1, h2⟩
+theorem sortedAll_nil {vs} (h : SortedAll vs []) : vs = [] := by
+  cases h; rfl
+theorem sortedAll_1 {vs t} (h : SortedAll vs [t]) : ∃ a, vs = [a] ∧ SortedAs a t := by
+  obtain ⟨a, r, rfl, h1, h2⟩ := sortedAll_cons h
+  rw [sortedAll_nil h2]; exact ⟨a, rfl, h1⟩
+theorem sortedAll_2 {vs t u} (h : SortedAll vs [t, u]) : ∃ a b, vs = [a, b] ∧ SortedAs a t ∧ SortedAs b u := by
+  obtain ⟨a, r, rfl, h1, h2⟩ := sortedAll_cons h
+  obtain ⟨b, rfl, h3⟩ := sortedAll_1 h2
+  exact ⟨a, b, rfl, h1, h3⟩
+theorem sortedAll_3 {vs t u w} (h : SortedAll vs [t, u, w]) :
+    ∃ a b c, vs = [a, b, c] ∧ SortedAs a t ∧ SortedAs b u ∧ SortedAs c w := by
+  obtain ⟨a, r, rfl, h1, h2⟩ := sortedAll_cons h
+  obtain ⟨b, c, rfl, h3, h4⟩ := sortedAll_2 h2
+  exact ⟨a, b, c, rfl, h1, h3, h4⟩
+
+theorem evalOp_hasSort (I : Interp) (op : Op) (p : Payload) (vs : List Val) (ts : List (Option Ty)) (τ : Ty)
+    (hfrag : nodeFrag op p vs.length = true) (hs : SortedAll vs ts)
+    (ht : typeOfNode op p ts = some τ)
+    (h1 : op ≠ .symbol) (h2 : op ≠ .function) (h3 : op.isQuantifier = false) :
+    (evalOp I op p vs).hasSort τ = true := by
+  by_cases hb : op.boolRes = true
+  · obtain ⟨b, hb'⟩ := evalOp_boolRes I op p vs hb
+    rw [hb', typeOfNode_boolRes op p ts τ hb ht]; rfl
+  by_cases hstr : op.strRes = true
+  · obtain ⟨s, hs'⟩ := evalOp_strRes I op p vs hstr hfrag
+    rw [hs', typeOfNode_strRes op hstr ht]; rfl
+  by_cases hsi : op.strIntRes = true
+  · obtain ⟨s, hs'⟩ := evalOp_strIntRes I op p vs hsi hfrag
+    rw [hs', typeOfNode_strIntRes op hsi ht]; rfl
+  by_cases har : op.isArith = true
+  · rw [typeOfNode_arith op har] at ht
+    have hT : ∃ T, (T = Ty.real ∨ T = Ty.int) ∧ allAre ts T = true ∧ τ = T := by
+      split at ht
+      · next hr => exact ⟨.real, .inl rfl, hr, (Option.some.inj ht).symm⟩
+      · obtain ⟨hi, rfl⟩ := of_ite_some ht
+        exact ⟨.int, .inr rfl, hi, rfl⟩
+    obtain ⟨T, hTT, hall, rfl⟩ := hT
+    have hv := allAre_sorted hs hall
+    cases op <;> simp [Op.isArith] at har
+    case plus =>
+      rcases vs with _ | ⟨v, vs⟩
+      · simp [nodeFrag] at hfrag
+      · show (vs.foldl Sem.add v).hasSort τ = true
+        rcases hTT with rfl | rfl
+        · exact foldl_hasSort _ _ (fun a b => add_real) vs v (hv v (by simp)) (fun x hx => hv x (by simp [hx]))
+        · exact foldl_hasSort _ _ (fun a b => add_int) vs v (hv v (by simp)) (fun x hx => hv x (by simp [hx]))
+    case times =>
+      rcases vs with _ | ⟨v, vs⟩
+      · simp [nodeFrag] at hfrag
+      · show (vs.foldl Sem.mul v).hasSort τ = true
+        rcases hTT with rfl | rfl
+        · exact foldl_hasSort _ _ (fun a b => mul_real) vs v (hv v (by simp)) (fun x hx => hv x (by simp [hx]))
+        · exact foldl_hasSort _ _ (fun a b => mul_int) vs v (hv v (by simp)) (fun x hx => hv x (by simp [hx]))
+    case minus =>
+      rcases vs with _ | ⟨a, _ | ⟨b, _ | ⟨c, r⟩⟩⟩ <;> simp [nodeFrag] at hfrag
+      show (Sem.sub a b).hasSort τ = true
+      rcases hTT with rfl | rfl
+      · exact sub_real (hv a (by simp)) (hv b (by simp))
+      · exact sub_int (hv a (by simp)) (hv b (by simp))
+    case div =>
+      rcases vs with _ | ⟨a, _ | ⟨b, _ | ⟨c, r⟩⟩⟩ <;> simp [nodeFrag] at hfrag
+      show (Sem.div I a b).hasSort τ = true
+      rcases hTT with rfl | rfl
+      · exact div_real I (hv a (by simp)) (hv b (by simp))
+      · exact div_int I (hv a (by simp)) (hv b (by simp))
+  by_cases hbv : op.isBvSame = true
+  · rw [typeOfNode_bvSame op hbv] at ht
+    split at ht
+    · next w ws =>
+      obtain ⟨hall, rfl⟩ := of_ite_some ht
+      have hv := allAre_sorted hs hall
+      by_cases hun : op = .bvNot ∨ op = .bvNeg
+      · rcases vs with _ | ⟨a, _ | ⟨b, r⟩⟩
+        · rcases hun with rfl | rfl <;> simp [nodeFrag] at hfrag
+        · obtain ⟨f, hf⟩ := evalOp_bvUn I op _ a hun
+          rw [hf]; exact bv1_hasSort f (hv a (by simp))
+        · rcases hun with rfl | rfl <;> simp [nodeFrag] at hfrag
+      · have hbin : op.isBvBin = true := by
+          cases op <;> simp [Op.isBvSame] at hbv <;> simp at hun <;> rfl
+        rcases vs with _ | ⟨a, _ | ⟨b, _ | ⟨c, r⟩⟩⟩
+        · cases op <;> simp [Op.isBvBin] at hbin <;> simp [nodeFrag] at hfrag
+        · cases op <;> simp [Op.isBvBin] at hbin <;> simp [nodeFrag] at hfrag
+        · obtain ⟨f, hf⟩ := evalOp_bvBin I op _ a b hbin
+          rw [hf]; exact bv2_hasSort f (hv a (by simp)) (hv b (by simp))
+        · cases op <;> simp [Op.isBvBin] at hbin <;> simp [nodeFrag] at hfrag
+    · cases ht
+  cases op
+  all_goals try (exfalso; exact hb rfl)
+  all_goals try (exfalso; exact hstr rfl)
+  all_goals try (exfalso; exact hsi rfl)
+  all_goals try (exfalso; exact har rfl)
+  all_goals try (exfalso; exact hbv rfl)
+  all_goals try (exfalso; exact h1 rfl)
+  all_goals try (exfalso; exact h2 rfl)
+  all_goals try (exfalso; simp [Op.isQuantifier] at h3; done)
+  all_goals try (exfalso; simp [nodeFrag] at hfrag; done)
+  case boolConst =>
+    cases p <;> simp [nodeFrag] at hfrag
+    rcases ts with _ | ⟨t, r⟩ <;> tinv ht
+    cases ht; rfl
+  case intConst =>
+    cases p <;> simp [nodeFrag] at hfrag
+    rcases ts with _ | ⟨t, r⟩ <;> tinv ht
+    cases ht; rfl
+  case realConst =>
+    cases p <;> simp [nodeFrag] at hfrag
+    rcases ts with _ | ⟨t, r⟩ <;> tinv ht
+    cases ht; rfl
+  case strConst =>
+    cases p <;> simp [nodeFrag] at hfrag
+    rcases ts with _ | ⟨t, r⟩ <;> tinv ht
+    cases ht; rfl
+  case bvConst =>
+    cases p <;> simp [nodeFrag] at hfrag
+    rcases ts with _ | ⟨t, r⟩ <;> tinv ht
+    cases ht
+    rename_i v w
+    show (Val.bv w v).hasSort (.bv w) = true
+    simp [Val.hasSort, hfrag]
+  case ite =>
+    rw [typeOfNode_ite ht] at hs
+    obtain ⟨c, a, b, rfl, _, ha, hb'⟩ := sortedAll_3 hs
+    show (if c.isTrue then a else b).hasSort τ = true
+    split
+    · exact ha τ rfl
+    · exact hb' τ rfl
+  case toReal =>
+    rw [typeOfNode_toReal] at ht
+    obtain ⟨hall, rfl⟩ := of_ite_some ht
+    have hv := allAre_sorted hs hall
+    rcases vs with _ | ⟨a, _ | ⟨b, r⟩⟩ <;> simp [nodeFrag] at hfrag
+    obtain ⟨n, rfl⟩ := hasSort_int (hv a (by simp))
+    rfl
+  case bvConcat =>
+    obtain ⟨l, r, rfl, rfl⟩ := typeOfNode_bvConcat ht
+    obtain ⟨a, b, rfl, ha, hb'⟩ := sortedAll_2 hs
+    obtain ⟨x, rfl, _⟩ := hasSort_bv (ha _ rfl)
+    obtain ⟨y, rfl, _⟩ := hasSort_bv (hb' _ rfl)
+    exact hasSort_bv_of (l + r) (BitVec.ofNat l x ++ BitVec.ofNat r y)
+  case bvExtract =>
+    obtain ⟨w, lo, hi, base, rfl, rfl, rfl, hw⟩ := typeOfNode_bvExtract ht
+    obtain ⟨a, rfl, ha⟩ := sortedAll_1 hs
+    obtain ⟨x, rfl, _⟩ := hasSort_bv (ha _ rfl)
+    simp only [nodeFrag, decide_eq_true_eq] at hfrag
+    have hw' : w = hi - lo + 1 := by omega
+    subst hw'
+    exact hasSort_bv_of (hi - lo + 1) ((BitVec.ofNat base x).extractLsb' lo (hi - lo + 1))
+  case bvRol =>
+    obtain ⟨w, k, rfl, rfl, rfl⟩ := typeOfNode_bvRot .bvRol (.inl rfl) ht
+    obtain ⟨a, rfl, ha⟩ := sortedAll_1 hs
+    exact bv1_hasSort (fun _ x => x.rotateLeft k) (ha _ rfl)
+  case bvRor =>
+    obtain ⟨w, k, rfl, rfl, rfl⟩ := typeOfNode_bvRot .bvRor (.inr rfl) ht
+    obtain ⟨a, rfl, ha⟩ := sortedAll_1 hs
+    exact bv1_hasSort (fun _ x => x.rotateRight k) (ha _ rfl)
+  case bvZext =>
+    obtain ⟨w, ws, a, r, rfl, rfl, rfl⟩ := typeOfNode_bvExt .bvZext (.inl rfl) ht
+    obtain ⟨v, r', rfl, hv, _⟩ := sortedAll_cons hs
+    obtain ⟨x, rfl, _⟩ := hasSort_bv (hv _ rfl)
+    rcases ws with _ | ⟨k, _ | ⟨k', ws'⟩⟩ <;> rcases r' with _ | ⟨b, r''⟩ <;> simp [nodeFrag] at hfrag
+    exact hasSort_bv_of w ((BitVec.ofNat a x).setWidth w)
+  case bvSext =>
+    obtain ⟨w, ws, a, r, rfl, rfl, rfl⟩ := typeOfNode_bvExt .bvSext (.inr rfl) ht
+    obtain ⟨v, r', rfl, hv, _⟩ := sortedAll_cons hs
+    obtain ⟨x, rfl, _⟩ := hasSort_bv (hv _ rfl)
+    rcases ws with _ | ⟨k, _ | ⟨k', ws'⟩⟩ <;> rcases r' with _ | ⟨b, r''⟩ <;> simp [nodeFrag] at hfrag
+    exact hasSort_bv_of w ((BitVec.ofNat a x).signExtend w)
+  case bvComp =>
+    obtain ⟨w, rfl, rfl⟩ := typeOfNode_bvComp ht
+    obtain ⟨a, b, rfl, ha, hb'⟩ := sortedAll_2 hs
+    obtain ⟨x, rfl, _⟩ := hasSort_bv (ha _ rfl)
+    obtain ⟨y, rfl, _⟩ := hasSort_bv (hb' _ rfl)
+    show (Sem.bvComp (.bv w x) (.bv w y)).hasSort (.bv 1) = true
+    simp only [Sem.bvComp, Val.hasSort]
+    split <;> decide
+  case bvToNatural =>
+    obtain ⟨rfl, w, r, rfl⟩ := typeOfNode_bvToNatural ht
+    obtain ⟨v, r', rfl, hv, _⟩ := sortedAll_cons hs
+    obtain ⟨x, rfl, _⟩ := hasSort_bv (hv _ rfl)
+    rcases r' with _ | ⟨b, r''⟩ <;> simp [nodeFrag] at hfrag
+    rfl
+  case arraySelect =>
+    obtain ⟨i, rfl⟩ := typeOfNode_arraySelect ht
+    obtain ⟨a, j, rfl, ha, _⟩ := sortedAll_2 hs
+    exact select_hasSort i τ j a (ha _ rfl)
+
+/-- **Sort preservation** (`_partial`: every operator except `arrayStore`, `arrayValue` — canonical
+array values —, `pow` and `algebraicConst` — no semantics in `Core/Eval`; and assuming the arity /
+payload shapes of `Term.inFrag`, which the type checker does not enforce but every `FormulaManager`
+constructor does): under a well-formed interpretation a well-typed term of type `τ` evaluates to a
+value of sort `τ`. -/
+theorem eval_hasSort_partial : (t : Term) → ∀ (I : Interp) (τ : Ty), I.WF → t.wt = true → t.inFrag = true →
+    t.typeOf = some τ → (eval I t).hasSort τ = true
+  | .node op args p => fun I τ hI hwt hfr hty => by
+    have hfr' : (∀ a ∈ args, a.inFrag = true) ∧ nodeFrag op p args.length = true := by
+      rw [inFrag_node] at hfr
+      simp only [Bool.and_eq_true, List.all_eq_true, List.mem_map] at hfr
+      exact ⟨fun a ha => hfr.1 _ ⟨a, ha, rfl⟩, hfr.2⟩
+    have ih : ∀ a ∈ args, SortedAs (eval I a) a.typeOf := fun a ha τ' h' =>
+      eval_hasSort_partial a I τ' hI (Term.wt_child hwt a ha) (hfr'.1 a ha) h'
+    rw [typeOf_node] at hty
+    by_cases hsym : op = .symbol
+    · subst hsym
+      obtain ⟨hts, s, rfl, hpar⟩ := typeOfNode_symbol (by rw [hty]; rfl)
+      rw [typeOfNode_symbol_eq, hts] at hty
+      obtain ⟨_, rfl⟩ := of_ite_some hty
+      rw [eval_symbol]; exact hI.sym s
+    by_cases hfun : op = .function
+    · subst hfun
+      rw [typeOfNode_function_eq] at hty
+      cases p <;> try (cases hty; done)
+      rename_i f
+      obtain ⟨_, rfl⟩ := of_ite_some hty
+      rw [eval_function]; exact hI.fn f _
+    by_cases hq : op.isQuantifier = true
+    · cases op <;> simp [Op.isQuantifier] at hq
+      · rw [typeOfNode_forall_eq] at hty
+        have : τ = .bool := by split at hty <;> simp_all
+        subst this
+        rw [eval_node, evalNode_forall]
+        split <;> rfl
+      · rw [typeOfNode_exists_eq] at hty
+        have : τ = .bool := by split at hty <;> simp_all
+        subst this
+        rw [eval_node, evalNode_exists]
+        split <;> rfl
+    · have hq' : op.isQuantifier = false := by simpa using hq
+      rw [eval_plain I op args p hsym hfun hq']
+      exact evalOp_hasSort I op p _ _ τ (by simpa using hfr'.2) (sortedAll_map _ _ args ih) hty hsym hfun hq'
+
+/-- corollary: a well-typed Boolean term evaluates to a Boolean -/
+theorem eval_bool_partial (t : Term) (I : Interp) (hI : I.WF) (hwt : t.wt = true) (hfr : t.inFrag = true)
+    (hty : t.typeOf = some .bool) : ∃ b, eval I t = .b b :=
+  hasSort_bool (eval_hasSort_partial t I .bool hI hwt hfr hty)
 
 end PySMT
